@@ -375,7 +375,11 @@ def classify(ctx, a, res):
     if r2["outcome"] == "diff":
         out.extend(classify(ctx, fixed, r2))
     for ft in sorted(need):
-        r3 = roundtrip(ctx, repair(a, need - {ft}))  # fails by minimality; the diagnostic belongs to feature ft
+        # the diagnostic of feature ft: repair every other feature present (so that nothing masks it); when that removes
+        # ft's carrier too (nested features), fall back on the minimal set, which fails by minimality
+        r3 = roundtrip(ctx, repair(a, set(feats) - {ft}))
+        if r3["outcome"] not in ("printfail", "parsefail"):
+            r3 = roundtrip(ctx, repair(a, need - {ft}))
         key, want_stage, needles = FAIL_FEATURES[ft]
         got_stage = "print" if r3["outcome"] == "printfail" else "parse"
         if r3["outcome"] not in ("printfail", "parsefail") or got_stage != want_stage or not any(
@@ -436,7 +440,7 @@ def boundary_tags(a):
 
 # ------------------------------------------------------------------ plan / work
 def plan(tier, seed):
-    shards = 16 if tier == "quick" else 64
+    shards = 12 if tier == "quick" else 64
     per = 1500 if tier == "quick" else 16000
     return [{"seed": seed, "shard": i, "n": per} for i in range(shards)]
 
@@ -532,7 +536,7 @@ def on_lost(info):
 def finish(agg, tier):
     inc = []
     c = agg.counters
-    need = 12000 if tier == "quick" else 500000
+    need = 10000 if tier == "quick" else 500000
     if c.get("roundtrips", 0) < need:
         inc.append(f"only {c.get('roundtrips', 0)} round trips (< {need})")
     if c.get("outcome_ok", 0) < need // 3:
